@@ -550,7 +550,7 @@ class C12(Monitor):
 
     def programs(self):
         out = list(spaces.with_modes(spaces.prog_Pa()))
-        n = 600 if self.tier == "quick" else 1200
+        n = 400 if self.tier == "quick" else 1200
         # an integer constant with more decimal digits than the interpreters' int->str
         # limit (4300): to_json_data must refuse it the same way every time
         huge = [{"k": "src", "s": "HP", "src": "v = 0x1" + "0" * 4000 + "\nw = 2**70\n", "mode": "exec", "opt": 0}]
